@@ -39,12 +39,22 @@ RULE = ("random DAGs of 0-25 objects (contents, skipped contents, directories bu
         "sub-directories, several roots, repeated targets, entries pointing outside the set), input lists shuffled; "
         "missing set = upward closure of random seeds, or empty, or everything; SAMPLE_SIZE in {1,2,3,1000}; "
         "random.sample replaced by seeded-random / deepest-first / shallowest-first; some cases re-run in "
-        "subprocesses under other PYTHONHASHSEEDs (set.pop order).  non-trivial = the archive knows some but not "
+        "subprocesses under other PYTHONHASHSEEDs (set.pop order).  Independently of the abstract case, the SHAPE of the "
+        "Python objects handed to filter_known_objects varies per case: update_info_callback as function / lambda / bound "
+        "method / functools.partial / callable instance / positional argument / callable instances whose truth value is "
+        "False (__bool__; initially empty list, dict and Counter subclasses recording into themselves; a list subclass "
+        "that stays empty) / None / omitted (then no event is expected); the archive as instance with closures, class "
+        "with bound methods, callable-instance attributes (falsy), static methods on a falsy instance, __slots__; its "
+        "answers as list / generator / iterator / tuple / set / frozenset / dict_keys; the input containers as list or "
+        "list subclass (the code takes len() of them, so one-shot iterables are outside the signature).  non-trivial = the archive knows some but not "
         "all objects and some directory of the set has >= 2 parents in the set; distinct = distinct canonical case")
 TRUSTED = ["Python set/dict semantics as modelled in model/Discovery.v (sets = duplicate-free lists, set.pop() = "
            "arbitrary pick oracle, random.sample = sampler oracle bound only by `k distinct elements of the population`)",
            "the three archive methods are modelled by one function `missing` on ids (ids pairwise distinct)"]
-ASSUMPTIONS = ["the ids of the given contents, skipped contents and directories are pairwise distinct",
+ASSUMPTIONS = ["update_info_callback is any callable taking (obj, known) - nothing is assumed about its type, truth value "
+               "or length; callables whose __eq__/__bool__ RAISE are not generated",
+               "archive.contents / skipped_contents / directories are lists (or list subclasses), as the interface types them",
+               "the ids of the given contents, skipped contents and directories are pairwise distinct",
                "the archive answers consistently with a set of missing ids such that a known directory has only known "
                "entries among the given objects (the property's closure hypothesis)",
                "0 < SAMPLE_SIZE (checked on the source value at every run)"]
@@ -164,11 +174,28 @@ def mk_case(rng, n, shape, ss, strategy, missing_mode):
     rng.shuffle(dirs)
     case = {"contents": contents, "skipped": skipped, "dirs": dirs, "missing": sorted(f(x) for x in miss),
             "ss": ss, "sampler": strategy}
+    # SHAPE of the Python objects handed to filter_known_objects (the abstract case, hence the expected result
+    # lists and the expected multiset of callback events, do not depend on it)
     r = rng.random()
-    if r < 0.3:      # archives answering with a one-shot iterable (the interface says Iterable)
-        case["answer"] = "generator" if r < 0.15 else "iterator"
+    if r < 0.45:     # the interface types the archive's answers as Iterable[Sha1Git]
+        case["answer"] = rng.choice(ANSWER_SHAPES[1:])
+    if rng.random() < 0.6:
+        case["cb"] = rng.choice(CALLBACK_SHAPES[1:])
+    if rng.random() < 0.4:
+        case["archive"] = rng.choice(ARCHIVE_SHAPES[1:])
+    if rng.random() < 0.25:
+        case["containers"] = rng.choice(CONTAINER_SHAPES[1:])
     return case
 
+
+# first item = the default when the key is absent from a case
+ANSWER_SHAPES = ["list", "generator", "iterator", "tuple", "set", "frozenset", "dict_keys"]
+CALLBACK_SHAPES = ["function", "lambda", "bound_method", "partial", "instance", "positional",
+                   "falsy_bool", "falsy_list", "falsy_dict", "falsy_counter", "falsy_stays", "none", "omitted"]
+NO_CALLBACK = ("none", "omitted")
+ARCHIVE_SHAPES = ["closures", "methods", "callable_attrs", "staticmethods", "slots"]
+CONTAINER_SHAPES = ["list", "list_subclass"]
+FALSY_CALLBACKS = ("falsy_bool", "falsy_list", "falsy_dict", "falsy_counter", "falsy_stays")
 
 _PENDING = {}     # hashseed -> cases generated for a subprocess run (filled by gen)
 
@@ -185,6 +212,10 @@ def gen(rng, tier):
         {"contents": [1, 2], "skipped": [3], "dirs": [[10, [1, 11, 1099]], [12, [11, 2]], [11, [3, 1]]],
          "missing": [2, 10, 12], "ss": 1, "sampler": "deep"},
     ]
+    ex = cases[2]
+    cases += [dict(ex, cb=cb) for cb in CALLBACK_SHAPES[1:]]
+    cases += [dict(ex, archive=a, answer=ans) for a, ans in zip(ARCHIVE_SHAPES[1:] + ARCHIVE_SHAPES[1:3], ANSWER_SHAPES[1:])]
+    cases += [dict(ex, containers="list_subclass", cb="falsy_dict", archive="methods")]
     shapes = ["flat", "deep", "shared", "mixed", "dirs-only"]
     modes = ["few", "half", "leaf", "few", "half", "none", "all"]
     strategies = ["random", "deep", "shallow"]
@@ -240,6 +271,8 @@ def classify(c):
         ks.append("multi-root")
     if "hashseed" in c:
         ks.append("subprocess-hashseed")
+    ks += ["callback=" + c.get("cb", CALLBACK_SHAPES[0]), "archive=" + c.get("archive", ARCHIVE_SHAPES[0]),
+           "answer=" + c.get("answer", ANSWER_SHAPES[0]), "containers=" + c.get("containers", CONTAINER_SHAPES[0])]
     return ks
 
 
@@ -324,6 +357,152 @@ class _FakeRandom:
         return list(res)
 
 
+def shape_answer(shape, ans):
+    """the archive's answer (a list of real ids) as one of the iterables the interface allows"""
+    if shape == "generator":
+        return (b for b in ans)
+    if shape == "iterator":
+        return iter(tuple(ans))
+    if shape == "tuple":
+        return tuple(ans)
+    if shape == "set":
+        return set(ans)
+    if shape == "frozenset":
+        return frozenset(ans)
+    if shape == "dict_keys":
+        return dict.fromkeys(ans).keys()
+    return ans
+
+
+class _ListSubclass(list):
+    """a List[...] that is not exactly `list`"""
+    __slots__ = ()
+
+
+def make_archive(shape, containers, contents, skipped, dirs, m0, m1, m2):
+    """an object with the attributes / methods of ArchiveDiscoveryInterface, built in one of several ways"""
+    if containers == "list_subclass":
+        contents, skipped, dirs = _ListSubclass(contents), _ListSubclass(skipped), _ListSubclass(dirs)
+    if shape == "methods":          # ordinary class: the three queries are bound methods
+        class Archive:
+            def __init__(self):
+                self.contents, self.skipped_contents, self.directories = contents, skipped, dirs
+
+            def content_missing(self, ids):
+                return m0(ids)
+
+            def skipped_content_missing(self, ids):
+                return m1(ids)
+
+            def directory_missing(self, ids):
+                return m2(ids)
+        return Archive()
+    if shape == "callable_attrs":   # the three queries are instances with __call__ stored as attributes
+        class Query:
+            def __init__(self, f):
+                self._f = f
+
+            def __call__(self, ids):
+                return self._f(ids)
+
+            def __bool__(self):
+                return False
+
+        class Archive:
+            pass
+        a = Archive()
+        a.contents, a.skipped_contents, a.directories = contents, skipped, dirs
+        a.content_missing, a.skipped_content_missing, a.directory_missing = Query(m0), Query(m1), Query(m2)
+        return a
+    if shape == "staticmethods":    # class-level data and static methods; the class's instance is also falsy
+        class Archive:
+            content_missing = staticmethod(m0)
+            skipped_content_missing = staticmethod(m1)
+            directory_missing = staticmethod(m2)
+
+            def __len__(self):
+                return 0
+        Archive.contents, Archive.skipped_contents, Archive.directories = contents, skipped, dirs
+        return Archive()
+    if shape == "slots":
+        class Archive:
+            __slots__ = ("contents", "skipped_contents", "directories", "content_missing", "skipped_content_missing",
+                         "directory_missing")
+        a = Archive()
+        a.contents, a.skipped_contents, a.directories = contents, skipped, dirs
+        a.content_missing, a.skipped_content_missing, a.directory_missing = m0, m1, m2
+        return a
+
+    class Archive:                  # "closures": plain functions stored on the instance
+        pass
+    a = Archive()
+    a.contents, a.skipped_contents, a.directories = contents, skipped, dirs
+    a.content_missing, a.skipped_content_missing, a.directory_missing = m0, m1, m2
+    return a
+
+
+def make_callback(shape, record):
+    """(args, kwargs) to append to filter_known_objects(archive, ...): the update_info_callback in one of the forms a
+    caller may legitimately use; every form reports each call through record(obj, known)"""
+    import collections
+    import functools
+    if shape == "none":
+        return (), {"update_info_callback": None}
+    if shape == "omitted":
+        return (), {}
+    if shape == "lambda":
+        cb = lambda obj, known: record(obj, known)     # noqa: E731
+    elif shape == "bound_method":
+        class Recorder:
+            def on_info(self, obj, known):
+                record(obj, known)
+        cb = Recorder().on_info
+    elif shape == "partial":
+        cb = functools.partial(lambda tag, obj, known: record(obj, known), "tag")
+    elif shape == "instance":
+        class Recorder:
+            def __call__(self, obj, known):
+                record(obj, known)
+        cb = Recorder()
+    elif shape == "falsy_bool":      # callable whose truth value is False
+        class Recorder:
+            def __call__(self, obj, known):
+                record(obj, known)
+
+            def __bool__(self):
+                return False
+        cb = Recorder()
+    elif shape == "falsy_list":      # an (initially empty, hence falsy) list that records into itself
+        class EventLog(list):
+            def __call__(self, obj, known):
+                self.append((obj, known))
+                record(obj, known)
+        cb = EventLog()
+    elif shape == "falsy_dict":
+        class EventLog(dict):
+            def __call__(self, obj, known):
+                self[len(self)] = (obj, known)
+                record(obj, known)
+        cb = EventLog()
+    elif shape == "falsy_counter":
+        class EventLog(collections.Counter):
+            def __call__(self, obj, known):
+                self[bool(known)] += 1
+                record(obj, known)
+        cb = EventLog()
+    elif shape == "falsy_stays":     # records elsewhere: its own length stays 0 for the whole run
+        class EventLog(list):
+            def __call__(self, obj, known):
+                record(obj, known)
+        cb = EventLog()
+    else:                            # "function", "positional"
+        def cb(obj, known):
+            record(obj, known)
+    if shape == "positional":
+        return (cb,), {}
+    return (), {"update_info_callback": cb}
+
+
 def run_impl(c):
     from swh.model import discovery
     try:
@@ -341,30 +520,25 @@ def run_impl(c):
                 raise NonTermination()
             queries.append({"kind": kind, "ids": sorted(back.get(b, -1) for b in ids), "events_before": len(events)})
             ans = [b for b in ids if back.get(b, -1) in missing]
-            # the interface types the answer as Iterable[Sha1Git]: a list, a one-shot generator or an iterator
-            shape = c.get("answer", "list")
-            if shape == "generator":
-                return (b for b in ans)
-            if shape == "iterator":
-                return iter(tuple(ans))
-            return ans
+            return shape_answer(c.get("answer", ANSWER_SHAPES[0]), ans)
         return method
 
-    class Archive:
-        pass
-    archive = Archive()
-    archive.contents, archive.skipped_contents, archive.directories = contents, skipped, dirs
-    archive.content_missing, archive.skipped_content_missing, archive.directory_missing = ask(0), ask(1), ask(2)
-
-    def callback(obj, known):
+    def record(obj, known):
         oid = obj.id if obj.object_type == "directory" else obj.sha1_git
         events.append([back.get(oid, -1), bool(known)])
+
+    try:
+        archive = make_archive(c.get("archive", ARCHIVE_SHAPES[0]), c.get("containers", CONTAINER_SHAPES[0]),
+                               contents, skipped, dirs, ask(0), ask(1), ask(2))
+        args, kwargs = make_callback(c.get("cb", CALLBACK_SHAPES[0]), record)
+    except Exception as e:
+        return {"error": "harness-shape:" + repr(e)}
 
     old_ss, old_random = discovery.SAMPLE_SIZE, discovery.random
     discovery.SAMPLE_SIZE = c["ss"]
     discovery.random = _FakeRandom(old_random, c["sampler"], back, depths(c), draws, lambda: len(queries))
     try:
-        rc, rs, rd = discovery.filter_known_objects(archive, update_info_callback=callback)
+        rc, rs, rd = discovery.filter_known_objects(archive, *args, **kwargs)
         res = {"contents": [back.get(o.sha1_git, -1) for o in rc], "skipped": [back.get(o.sha1_git, -1) for o in rs],
                "dirs": [back.get(o.id, -1) for o in rd]}
     except NonTermination:
@@ -478,13 +652,16 @@ def oracle(c, ires, mres):
                     % (name, ires[name], want, lost, kept, "" if lost or kept else ", order changed"))
     objs = c["contents"] + c["skipped"] + [i for i, _ in c["dirs"]]
     want_ev = sorted([o, o not in miss] for o in objs)
+    if c.get("cb") in NO_CALLBACK:
+        return None        # no callback was given: there is nothing to fire (the result lists were checked above)
     if sorted(ires["events"]) != want_ev:
         seen = {}
         for o, f in ires["events"]:
             seen.setdefault(o, []).append(f)
         for o in objs:
             if len(seen.get(o, [])) != 1:
-                return "object %d received %d callbacks instead of exactly one" % (o, len(seen.get(o, [])))
+                return ("object %d received %d callbacks instead of exactly one (update_info_callback shape: %s)"
+                        % (o, len(seen.get(o, [])), c.get("cb", CALLBACK_SHAPES[0])))
             if seen[o][0] != (o not in miss):
                 return "object %d: callback flag known=%r but the archive says missing=%r" % (o, seen[o][0], o in miss)
         return "callbacks fired for ids that are not objects of the set"
@@ -505,7 +682,8 @@ def compare(c, ires, mres):
     for name in ("contents", "skipped", "dirs"):
         if ires[name] != rep[name] or ires[name] != ind[name]:
             return "result list %s differs: impl %r, model(replay) %r, model(independent) %r" % (name, ires[name], rep[name], ind[name])
-    if sorted(ires["events"]) != sorted(rep["events"]):
+    no_cb = c.get("cb") in NO_CALLBACK
+    if not no_cb and sorted(ires["events"]) != sorted(rep["events"]):
         return "callback multisets differ"
     # same archive queries (kind, set of ids); their order is not part of the property, so it is not compared
     iq = sorted([q["kind"], q["ids"]] for q in ires["queries"])
@@ -517,7 +695,7 @@ def compare(c, ires, mres):
         decided = {o for o, _ in ires["events"][:q["events_before"]]}
         if not q["ids"]:
             return "empty archive query"
-        if not set(q["ids"]) <= objs - decided:
+        if not no_cb and not set(q["ids"]) <= objs - decided:
             return "archive asked about ids that are not undecided objects: %r" % (sorted(set(q["ids"]) - (objs - decided)),)
     # every draw obeyed the replaced random.sample's contract on the implementation side too
     for d in ires["draws"]:
@@ -547,6 +725,9 @@ def shrink(c):
             d.pop("hashseed", None)
             # removing an entry may make a missing directory closed-known again; keep the missing set (still upward closed)
             yield d
+    for key in ("cb", "archive", "answer", "containers"):      # the default shape, if the failure does not need this one
+        if key in c:
+            yield {k: v for k, v in c.items() if k != key}
     if c["ss"] != 1:
         yield dict(c, ss=1)
     if c["sampler"] != "shallow":
